@@ -34,7 +34,9 @@ FOREIGN = SPLIT + [("  0 = B 120000", {"sync"}), ("  0 = TS 4", {"sync"}), ("  0
            ("  }", set()), ("} ", set()), ("\t{", set()), (" { ", set()), ("{}", set()),
            # characters that mean something to string formatting / logging / regex engines
            ("  100% = B 120000", set()), ("  0 = X %s", set()), ("%d %s %(line)s", set()), ("  0 = N %d 0", set()), ("{0} {} {line}", set()),
-           ("  0 = E \"lyric 100% sure\"", {"events"}), ("  0 = B 50%", set()), ("  768 = ", set()), ("768 =   ", set()), ("  768 =", set()), (" = ", set()), ("=", set()), ("  5 = N", set()), ("  5 = E", set()), ("\\d+ = N \\d \\d", set()), ("  0 = N 0 0 % note", set())]
+           ("  0 = E \"lyric 100% sure\"", {"events"}), ("  0 = B 50%", set()), ("  768 = ", set()), ("768 =   ", set()), ("  768 =", set()), (" = ", set()), ("=", set()), ("  5 = N", set()), ("  5 = E", set()), ("\\d+ = N \\d \\d", set()), ("  0 = N 0 0 % note", set()),
+           # an anchor line ends with its number: blanks after it make it a line of no documented shape (unlike B / TS / N / S / E lines)
+           ("  960 = A 2500000 ", set()), ("  5 = A 7\t", set()), ("0 = A 0\u3000", set())]
 
 
 def body_count(R):
